@@ -28,7 +28,7 @@ FATAL = {
     # "the first operation that needs to write or grow moves the handle to its own storage with the correct contents":
     # text / outcome / capacity predicates count for calls whose target was a static handle
     "C10": {"always": ("StaticBorrow", "StaticPrefix", "StaticsOK"), "when_target": {"static": ("TextOK", "ResultOK", "CapOK", "Utf8OK")},
-            "must_exercise": ("StaticBorrow",)},
+            "must_exercise": ("StaticBorrow",), "conv": ("BigStaticOK",)},
     "C11": {"always": ("CapOK", "WithCap", "ReservePost", "NoReallocInCap"), "must_exercise": ("WithCap", "ReservePost", "NoReallocInCap"), "conv": ("NoMoveOK", "BigOpOK")},
     "C12": {"always": ("Growth",), "must_exercise": ("Growth",), "conv": ("GrowOK", "LoopOK")},
     "C13": {"always": ("ShrinkPost",), "must_exercise": ("ShrinkPost",), "conv": ("ShrinkOK",)},
@@ -92,7 +92,7 @@ PROFILES = {
     "C07": {"quick": [IDX1, CORE3, dq("mixed")], "thorough": [IDX1, CORE4, SEED2, dt("mixed")]},
     "C08": {"quick": [SEED2, PAIRS2, SCALE, dq("mixed")], "thorough": [SEED3, CORE4, CORE3H, SCALE, dt("mixed")]},
     "C09": {"quick": [SEED2, FINAL2, CONV, dq("mixed")], "thorough": [SEED3, CORE4, FINAL2, CONV, dt("mixed")]},
-    "C10": {"quick": [SEED2, dq("mixed")], "thorough": [SEED3, CORE4, dt("mixed")]},
+    "C10": {"quick": [SEED2, SCALE, dq("mixed")], "thorough": [SEED3, CORE4, SCALE, dt("mixed")]},
     "C11": {"quick": [SEED2, CORE3, FAIL2, SCALE, PROOF, dq("all")], "thorough": [SEED3, CORE4, FAIL2, SIZES2, SHRINK2, SCALE, PROOF, dt("all")]},
     "C12": {"quick": [SEED2, CORE3, FAIL2, SCALE, dq("all")], "thorough": [SEED3, CORE4, FAIL2, SIZES2, SHRINK2, SCALE, dt("all")]},
     "C13": {"quick": [SEED2, SHRINK2, FAIL2, SCALE, dq("all")], "thorough": [SEED3, CORE4, SHRINK2, FAIL2, SIZES2, SCALE, dt("all")]},
